@@ -339,6 +339,10 @@ class Engine:
     def getattr(self, base, attr, n, st):
         if isinstance(base, MObj) and attr == "__dict__":
             return ("dictview", base)
+        if isinstance(base, MObj) and base.cls == "StrKeyDict" and attr in ("get", "pop") and attr not in base.attrs:
+            return self._skd_method(base, attr)
+        if isinstance(base, tuple) and len(base) == 2 and base[0] == "dictview" and attr in ("get", "pop"):
+            return self._skd_method(base[1], attr)
         if isinstance(base, MObj):
             if attr in base.attrs:
                 return base.attrs[attr]
@@ -376,6 +380,25 @@ class Engine:
                 return g
             return PyConst(full)
         raise OutOfSubset(n, f"attribute {attr} of {base!r}")
+
+    def _skd_method(self, obj, meth):
+        """d.get(k[, default]) / d.pop(k[, default]) on a dict with statically known string keys (or an object's __dict__)"""
+        def call(eng, args, kw, n, st):
+            key = eng.static_key(args[0], n)
+            if key in obj.attrs:
+                v = obj.attrs[key]
+                if meth == "pop":
+                    if eng.c.frame is not None and obj.cls == "StrKeyDict":
+                        eng.oblige(st, "frame", n, z3.BoolVal(key in eng.c.frame or "*" in eng.c.frame), f"removal of state key {key!r} outside modifies={sorted(eng.c.frame)}")
+                    del obj.attrs[key]
+                return v
+            if len(args) > 1:
+                return args[1]
+            if meth == "pop":
+                eng.require(st, "safe.key", n, z3.BoolVal(False), "KeyError")
+            return lift(None)
+
+        return call
 
     def wrap(self, ty, term):
         return V(ty, term)
@@ -1490,6 +1513,8 @@ class Engine:
         cur = self.ev(tgt, st)
         if isinstance(cur, MObj) or (isinstance(cur, V) and isinstance(cur.ty, TObj) and not isinstance(cur.ty, TRec)):
             return False
+        if isinstance(cur, tuple) and len(cur) == 2 and cur[0] == "dictview":
+            return False        # obj.__dict__.pop(...): handled as an ordinary (native) call
         args = [self.ev(a, st) for a in call.args]
         new = lib.mutate(self, cur, meth, args, call, st)
         self.assign(tgt, new, st, call)
